@@ -53,3 +53,23 @@ func TestC04Ttmp11IsDecodable(t *testing.T) {
 		t.Errorf("s_mov_b32 ttmp11, s0 is reported as undecodable: %v", err)
 	}
 }
+
+func TestC04MadakWithLiteralSourceIsEightBytes(t *testing.T) {
+	// v_madak_f32 v1, 0x3f800000, v2, 0x3f800000
+	buf := []byte{0xff, 0x04, 0x02, 0x30, 0x00, 0x00, 0x80, 0x3f, 0x00, 0x00, 0x81, 0xbf}
+	inst, err := NewDisassembler().Decode(buf)
+	if err != nil {
+		t.Fatal(err)
+	}
+	if inst.ByteSize != 8 {
+		t.Errorf("%s with a literal SRC0 decoded with ByteSize %d; K and the literal share one dword (8 bytes)", inst.InstName, inst.ByteSize)
+	}
+}
+
+func TestC04ConstantAsDestinationIsUndecodable(t *testing.T) {
+	// v_cmp_lt_f32_e64 with destination field 0x80 (inline constant 0)
+	buf := []byte{0x80, 0x00, 0x41, 0xd0, 0x01, 0x05, 0x00, 0x00}
+	if inst, err := NewDisassembler().Decode(buf); err == nil {
+		t.Errorf("a compare whose destination field names an inline constant decodes to %q without error (destination register: %v)", inst.InstName, inst.Dst.Register)
+	}
+}
